@@ -283,19 +283,13 @@ func HarnessC14_args() {
 // c14B64: independent base64 (RFC 4648, standard alphabet, padded).
 func c14B64(s string) string {
 	const tab = "ABCDEFGHIJKLMNOPQRSTUVWXYZabcdefghijklmnopqrstuvwxyz0123456789+/"
-	enc := func(v byte) byte {
-		// arithmetic form of the table so that it also works on symbolic bytes
-		switch {
-		case v < 26:
-			return 'A' + v
-		case v < 52:
-			return 'a' + (v - 26)
-		case v < 62:
-			return '0' + (v - 52)
-		case v == 62:
-			return '+'
-		}
-		return '/'
+	enc := func(b byte) byte {
+		// branch-free arithmetic form of the table (so that a symbolic
+		// 6-bit group does not fork the reference): the masks are all-ones
+		// exactly when v is above the boundary
+		v := int(b)
+		c := 65 + v + (((25 - v) >> 8) & 6) + (((51 - v) >> 8) & -75) + (((61 - v) >> 8) & -15) + (((62 - v) >> 8) & 3)
+		return byte(c)
 	}
 	_ = tab
 	out := []byte{}
@@ -331,9 +325,9 @@ func c14B64(s string) string {
 // is the real encoding/base64 on concrete data and an exact bit-level model
 // of it on symbolic bytes.
 func HarnessC14_base64() {
-	n := 4
+	n := 6
 	if vTier() > 0 {
-		n = 6
+		n = 8
 	}
 	s := ndStr(n, "any")
 	vAssume(vNoByte(s, '$'))
